@@ -61,8 +61,14 @@ func (vf15NoPayments) PaymentsDisabled() bool            { return true }
 func (vf15NoPayments) UnpaidSince(cid.ID) (int64, error) { return -1, nil }
 
 type vf15Op struct {
-	Kind string `json:"kind"` // put | delete | mark-redundant | mark-garbage | tombstone | epoch | gc | flush | bgflush
+	Kind string `json:"kind"` // put | delete | mark-redundant | mark-garbage | tombstone | epoch | gc | flush | bgflush | bg
 	Obj  int    `json:"obj"`
+	// Gate (kind "bg" only): the background flusher is let run until it stands at its next step
+	// boundary of this kind and is HELD there while the following operations of the script
+	// execute: scheduled (batch formed, not handed over) | taken (worker has the batch, nothing
+	// read) | read (cache copies read, nothing written) | stored (written to the main storage,
+	// cache copies not removed yet) | done (round finished) | idle (run until the cache is empty).
+	Gate string `json:"gate,omitempty"`
 }
 
 func vf15NoArg(kind string) bool {
@@ -74,10 +80,163 @@ func vf15NoArg(kind string) bool {
 }
 
 func (o vf15Op) String() string {
+	if o.Kind == "bg" {
+		return "bg(" + o.Gate + ")"
+	}
 	if vf15NoArg(o.Kind) {
 		return o.Kind
 	}
 	return fmt.Sprintf("%s(%d)", o.Kind, o.Obj)
+}
+
+// vf15GateKinds: the flusher step boundaries a history may hold the flusher at, in the order
+// one flush round passes them.
+var vf15GateKinds = []string{"scheduled", "taken", "read", "stored", "done"}
+
+// vf15GateOf maps an instrumentation point to the flusher boundary kind it marks ("" if it
+// is not one).  The flushSingle points are shared with the explicit (foreground) flush.
+func vf15GateOf(name string, fgFlush bool) string {
+	switch name {
+	case "writecache.sched.handoff":
+		return "scheduled"
+	case "writecache.worker.got":
+		return "taken"
+	case "writecache.flushBatch.read":
+		return "read"
+	case "writecache.flushBatch.stored":
+		return "stored"
+	case "writecache.flushBatch.deleted":
+		return "removed"
+	case "writecache.worker.done":
+		return "done"
+	}
+	if !fgFlush {
+		switch name {
+		case "writecache.flushSingle.read":
+			return "read"
+		case "writecache.flushSingle.stored":
+			return "stored"
+		case "writecache.flushSingle.deleted":
+			return "removed"
+		}
+	}
+	return ""
+}
+
+// vf15Ctl makes the interleaving of the background flusher with the scripted operations a
+// function of the script: the flusher's goroutines stand still at their step boundaries
+// unless a "bgflush"/"bg" operation lets them advance, and a "bg(gate)" operation ends as
+// soon as one of them stands at the wanted boundary.  So at any moment either the script or
+// the flusher moves, never both, and the dry run and the crash children walk the same path.
+type vf15Ctl struct {
+	mu      sync.Mutex
+	cond    *sync.Cond
+	free    bool   // nothing is held any more (shutdown, or an operation was blocked by the held flusher)
+	adv     bool   // a bg operation is letting the flusher advance
+	target  string // boundary kind the running bg operation wants the flusher held at
+	gen     int    // number of bg operations started
+	reached bool
+	fgFlush atomic.Bool
+	hits    atomic.Int64
+}
+
+func vf15NewCtl() *vf15Ctl {
+	c := new(vf15Ctl)
+	c.cond = sync.NewCond(&c.mu)
+	return c
+}
+
+func (c *vf15Ctl) onPoint(name string, _ int) {
+	c.hits.Add(1)
+	kind := vf15GateOf(name, c.fgFlush.Load())
+	if kind == "" {
+		return
+	}
+	c.mu.Lock()
+	defer c.mu.Unlock()
+	for !c.free {
+		if !c.adv {
+			c.cond.Wait() // stand still until the script lets the flusher move
+			continue
+		}
+		if kind != c.target {
+			return
+		}
+		// the wanted boundary: the bg operation is over, stand here until the next one
+		c.adv, c.reached = false, true
+		my := c.gen
+		c.cond.Broadcast()
+		for !c.free && c.gen == my {
+			c.cond.Wait()
+		}
+		return
+	}
+}
+
+func (c *vf15Ctl) setFree() {
+	c.mu.Lock()
+	c.free = true
+	c.cond.Broadcast()
+	c.mu.Unlock()
+}
+
+// advance is the body of a bg operation.  Waiting ends on logical conditions (boundary
+// reached / cache empty); the time bounds only stop waiting for something that will not
+// come (they decide which crash points exist, never a verdict).
+func (c *vf15Ctl) advance(target, dir string) (string, error) {
+	c.mu.Lock()
+	c.target, c.reached, c.adv = target, false, true
+	c.gen++
+	c.cond.Broadcast()
+	c.mu.Unlock()
+	defer func() {
+		c.mu.Lock()
+		c.adv = false
+		c.mu.Unlock()
+	}()
+	quiet, bound := 400*time.Millisecond, 4*time.Second
+	if target != "idle" {
+		quiet, bound = 1500*time.Millisecond, 6*time.Second
+	}
+	start, seen, last, lastAt := time.Now(), c.hits.Load(), c.hits.Load(), time.Now()
+	for {
+		c.mu.Lock()
+		reached := c.reached
+		c.mu.Unlock()
+		if reached {
+			return "held=" + target, nil
+		}
+		files := vf15CacheFiles(dir)
+		if target == "idle" && files == 0 {
+			return "idle", nil
+		}
+		now := c.hits.Load()
+		if now != last {
+			last, lastAt = now, time.Now()
+		}
+		if (now != seen || files == 0) && time.Since(lastAt) > quiet {
+			return "", fmt.Errorf("flusher went quiet with %d files left", files)
+		}
+		if time.Since(start) > bound {
+			return "", fmt.Errorf("flusher left %d files", files)
+		}
+		time.Sleep(2 * time.Millisecond)
+	}
+}
+
+// foreground runs one scripted operation while the flusher stands still.  Should the
+// operation need something the held flusher owns, the flusher is let go for good (liveness
+// of the harness only).
+func (c *vf15Ctl) foreground(f func() error) (err error, blocked bool) {
+	done := make(chan error, 1)
+	go func() { done <- f() }()
+	select {
+	case err = <-done:
+		return err, false
+	case <-time.After(20 * time.Second):
+		c.setFree()
+		return <-done, true
+	}
 }
 
 type vf15Spec struct {
@@ -175,78 +334,71 @@ func vf15Child(specPath string) {
 		os.Exit(4)
 	}
 	h := verifkit.InstallHooks()
-	var hits atomic.Int64
-	// The cache's own flush scheduler (1 s tick) is held at its hand-off point except while a
-	// "bgflush" operation runs, so that which operation a background flush interleaves with is
-	// decided by the history and not by machine load (dry run and crash children then walk
-	// the same sequence of step points outside bgflush).
-	var schedOpen atomic.Bool
-	h.OnPoint(func(name string, _ int) {
-		hits.Add(1)
-		if name == "writecache.sched.handoff" {
-			for !schedOpen.Load() {
-				time.Sleep(time.Millisecond)
-			}
-		}
-	})
+	// The cache's own flusher (scheduler with its 1 s tick + one worker) stands still at its
+	// step boundaries except while a "bgflush"/"bg" operation runs, so that which operation a
+	// background flush interleaves with is decided by the history and not by machine load.
+	ctl := vf15NewCtl()
+	h.OnPoint(ctl.onPoint)
 	if sp.CrashName != "" {
 		h.CrashAt(sp.CrashName, sp.CrashK)
 	}
 	for i, op := range sp.Ops {
 		verifhook.Point(vf15OpMark)
-		var err error
+		var (
+			err     error
+			note    string
+			blocked bool
+		)
 		switch op.Kind {
-		case "put":
-			err = sh.Put(objs[op.Obj], sp.Objects[op.Obj])
-		case "delete":
-			a := objs[op.Obj].Address()
-			err = sh.Delete(a.Container(), []oid.ID{a.Object()})
-		case "mark-redundant":
-			a := objs[op.Obj].Address()
-			err = sh.MarkGarbage(a.Container(), []oid.ID{a.Object()}, meta.GarbageMarkRedundant)
-		case "mark-garbage":
-			a := objs[op.Obj].Address()
-			err = sh.MarkGarbage(a.Container(), []oid.ID{a.Object()}, meta.GarbageMarkDefault)
-		case "tombstone":
-			err = sh.Put(tombs[op.Obj], sp.Tombs[op.Obj])
-		case "epoch":
-			ep.v.Store(vf15NewEpoch)
-			sh.setEpochEventHandler(EventNewEpoch(vf15NewEpoch))
-		case "gc":
-			sh.removeGarbage()
-		case "flush":
-			err = sh.FlushWriteCache(false)
 		case "bgflush":
 			// Let the cache's own scheduler work: until the cache is empty, or it has gone
 			// quiet after at least one hand-off (objects may legitimately stay behind), or a
 			// generous bound.  Only decides WHICH crash points exist, never a verdict.
-			schedOpen.Store(true)
-			start, seen, last, lastAt := time.Now(), hits.Load(), hits.Load(), time.Now()
-			for vf15CacheFiles(sp.Dir) > 0 {
-				now := hits.Load()
-				if now != last {
-					last, lastAt = now, time.Now()
+			note, err = ctl.advance("idle", sp.Dir)
+		case "bg":
+			note, err = ctl.advance(op.Gate, sp.Dir)
+		default:
+			err, blocked = ctl.foreground(func() error {
+				switch op.Kind {
+				case "put":
+					return sh.Put(objs[op.Obj], sp.Objects[op.Obj])
+				case "delete":
+					a := objs[op.Obj].Address()
+					return sh.Delete(a.Container(), []oid.ID{a.Object()})
+				case "mark-redundant":
+					a := objs[op.Obj].Address()
+					return sh.MarkGarbage(a.Container(), []oid.ID{a.Object()}, meta.GarbageMarkRedundant)
+				case "mark-garbage":
+					a := objs[op.Obj].Address()
+					return sh.MarkGarbage(a.Container(), []oid.ID{a.Object()}, meta.GarbageMarkDefault)
+				case "tombstone":
+					return sh.Put(tombs[op.Obj], sp.Tombs[op.Obj])
+				case "epoch":
+					ep.v.Store(vf15NewEpoch)
+					sh.setEpochEventHandler(EventNewEpoch(vf15NewEpoch))
+				case "gc":
+					sh.removeGarbage()
+				case "flush":
+					ctl.fgFlush.Store(true)
+					defer ctl.fgFlush.Store(false)
+					return sh.FlushWriteCache(false)
 				}
-				if now != seen && time.Since(lastAt) > 400*time.Millisecond {
-					err = fmt.Errorf("flusher went quiet with %d files left", vf15CacheFiles(sp.Dir))
-					break
-				}
-				if time.Since(start) > 4*time.Second {
-					err = fmt.Errorf("flusher left %d files", vf15CacheFiles(sp.Dir))
-					break
-				}
-				time.Sleep(5 * time.Millisecond)
-			}
-			schedOpen.Store(false)
+				return nil
+			})
 		}
 		res := "ok"
 		if err != nil {
 			res = "err " + err.Error()
+		} else if note != "" {
+			res = "ok " + note
+		}
+		if blocked {
+			res += " (blocked by the held flusher)"
 		}
 		j.Append(fmt.Sprintf("%d %s %s", i, op, res))
 	}
 	order := h.Order()
-	schedOpen.Store(true)
+	ctl.setFree()
 	h.Uninstall()
 	ob, _ := json.Marshal(order)
 	_ = os.WriteFile(sp.Out, ob, 0o644)
@@ -263,6 +415,79 @@ type vf15Hist struct {
 	bins  [][]byte
 	tombs [][]byte
 	ops   []vf15Op
+
+	overlap   bool // operations execute while the flusher is held inside a flush round
+	enumerate bool // crash points are enumerated (otherwise only the stop after the last operation is judged)
+	firstBg   int  // overlap histories: index of the first bg operation
+
+	dryJournal  []string             // journal of the complete (dry) run
+	cleanFailed map[oid.Address]bool // addresses already unreadable after the complete run + clean stop
+}
+
+// phase tells where the background flusher stood while operation i executed, according to
+// the journal of the complete run: inside a flush round before the batch was written to the
+// main storage, after that (cache copies not removed yet), or not inside a round.
+func (hs *vf15Hist) phase(i int) string {
+	held := ""
+	for j := 0; j < i && j < len(hs.ops) && j < len(hs.dryJournal); j++ {
+		if k := hs.ops[j].Kind; k != "bg" && k != "bgflush" {
+			continue
+		}
+		held = ""
+		if _, g, ok := strings.Cut(hs.dryJournal[j], " ok held="); ok {
+			held = g
+		}
+	}
+	switch held {
+	case "scheduled", "taken", "read":
+		return "flush-before-store"
+	case "stored":
+		return "flush-after-store"
+	}
+	return "flusher-idle"
+}
+
+// lastPut: index of the last operation of the script that stores the item, -1 if none.
+func (hs *vf15Hist) lastPut(it vf15Item) int {
+	kind := "put"
+	if it.tomb {
+		kind = "tombstone"
+	}
+	pi := -1
+	for i, op := range hs.ops {
+		if op.Kind == kind && op.Obj == it.obj {
+			pi = i
+		}
+	}
+	return pi
+}
+
+// cleanKey names the history shape that left an item listed but unreadable although no
+// operation was interrupted: where the flusher stood when the lost copy was put, and which
+// operation (direct delete or GC pass) had last removed things before that, and where the
+// flusher stood then.
+func (hs *vf15Hist) cleanKey(it vf15Item) string {
+	pi := hs.lastPut(it)
+	if pi < 0 {
+		return "never-put"
+	}
+	removed := "none"
+	for i := pi - 1; i >= 0 && removed == "none"; i-- {
+		op := hs.ops[i]
+		switch {
+		case op.Kind == "delete" && op.Obj == it.obj && !it.tomb:
+			removed = "delete@" + hs.phase(i)
+		case op.Kind == "gc":
+			// a GC pass counts when something had given it a reason to collect the item
+			for j := 0; j < i; j++ {
+				switch m := hs.ops[j]; {
+				case m.Kind == "epoch", !it.tomb && m.Obj == it.obj && (m.Kind == "mark-redundant" || m.Kind == "mark-garbage" || m.Kind == "tombstone"):
+					removed = "gc@" + hs.phase(i)
+				}
+			}
+		}
+	}
+	return fmt.Sprintf("put@%s|removed-by=%s", hs.phase(pi), removed)
 }
 
 func (hs *vf15Hist) describe() map[string]any {
@@ -354,6 +579,106 @@ func vf15GenHist(r *verifkit.Run, idx int) *vf15Hist {
 	return hs
 }
 
+// vf15GenOverlapHist: a history whose operations overlap ONE OR TWO background flush rounds.
+// Two or three small objects are cached, then the flusher is advanced to 2-3 of its step
+// boundaries (in round order) and held at each while 1-2 operations execute, most of them on
+// one member of the cached set (removed, marked, collected, put back, put again, flushed
+// explicitly ...); finally the flusher runs until the cache is empty.  <= 10 operations.
+func vf15GenOverlapHist(r *verifkit.Run, idx int) *vf15Hist {
+	rng := r.Rand("overlap", idx)
+	hs := &vf15Hist{idx: 1000 + idx, wc: true, thr: 2048, bc: 2 + rng.IntN(3), overlap: true}
+	cnr, owner := verifkit.RandCID(rng), verifkit.RandUser(rng)
+	n := 3 + rng.IntN(2)
+	for i := 0; i < n; i++ {
+		pl := 32 + 40*i + rng.IntN(30)
+		if i >= 2 && rng.IntN(4) == 0 {
+			pl = 2100 + 500*i + rng.IntN(400)
+		}
+		o := verifkit.NewObject(rng, cnr, owner, pl)
+		hs.objs = append(hs.objs, o)
+		hs.bins = append(hs.bins, o.Marshal())
+		ts := verifkit.NewObject(rng, cnr, owner, 0)
+		ts.SetType(object.TypeTombstone)
+		ts.AssociateDeleted(o.GetID())
+		verifkit.SetExpiration(ts, vf15TombExp)
+		hs.tombs = append(hs.tombs, ts.Marshal())
+	}
+	p := 2 + rng.IntN(2)
+	for i := 0; i < p; i++ {
+		hs.ops = append(hs.ops, vf15Op{Kind: "put", Obj: i})
+	}
+	hs.firstBg = p
+	v := rng.IntN(p)
+	w := 2
+	if rng.IntN(5) < 2 {
+		w = 3
+	}
+	pick := rng.Perm(len(vf15GateKinds))[:w]
+	sort.Ints(pick)
+	extra := 10 - p - w - 1 - w // operations beyond one per window
+	put := map[int]bool{}
+	for i := 0; i < p; i++ {
+		put[i] = true
+	}
+	listed, marked := true, false
+	other := func() vf15Op {
+		for i := 0; i < n; i++ {
+			if !put[i] {
+				put[i] = true
+				return vf15Op{Kind: "put", Obj: i}
+			}
+		}
+		o := rng.IntN(n)
+		if o == v {
+			o = (o + 1) % n
+		}
+		return vf15Op{Kind: []string{"delete", "mark-redundant", "put"}[rng.IntN(3)], Obj: o}
+	}
+	for _, g := range pick {
+		hs.ops = append(hs.ops, vf15Op{Kind: "bg", Gate: vf15GateKinds[g]})
+		k := 1
+		if extra > 0 && rng.IntN(5) < 2 {
+			k, extra = 2, extra-1
+		}
+		for ; k > 0; k-- {
+			x := rng.IntN(100)
+			var op vf15Op
+			switch {
+			case listed && x < 50:
+				op, listed, marked = vf15Op{Kind: "delete", Obj: v}, false, false
+			case listed && x < 60:
+				op, marked = vf15Op{Kind: "mark-redundant", Obj: v}, true
+			case listed && x < 68:
+				op = vf15Op{Kind: "gc"}
+				if marked {
+					listed, marked = false, false
+				}
+			case listed && x < 76:
+				op = vf15Op{Kind: "put", Obj: v}
+			case listed && x < 84:
+				op = other()
+			case listed && x < 90:
+				op = vf15Op{Kind: "flush"}
+			case listed && x < 95:
+				op, listed = vf15Op{Kind: "mark-garbage", Obj: v}, false
+			case listed:
+				op, listed = vf15Op{Kind: "tombstone", Obj: v}, false
+			case x < 75:
+				op, listed = vf15Op{Kind: "put", Obj: v}, true
+			case x < 85:
+				op = vf15Op{Kind: "gc"}
+			case x < 95:
+				op = other()
+			default:
+				op = vf15Op{Kind: "flush"}
+			}
+			hs.ops = append(hs.ops, op)
+		}
+	}
+	hs.ops = append(hs.ops, vf15Op{Kind: "bg", Gate: "idle"})
+	return hs
+}
+
 type vf15Job struct {
 	hs    *vf15Hist
 	name  string
@@ -390,13 +715,18 @@ type vf15Item struct {
 	addr oid.Address
 	bin  []byte
 	what string
+	obj  int  // universe member
+	tomb bool // the member's tombstone object
 }
 
 // vf15CheckAll applies the statement to every address of the universe: listed as
 // available => every full read returns exactly the stored bytes.
 // Addresses in skip (already reported for this recovery) are not judged again; the
 // addresses judged unreadable are returned.
-func vf15CheckAll(r *verifkit.Run, sh *Shard, items []vf15Item, desc map[string]any, key, phase, where string, skip map[oid.Address]bool) map[oid.Address]bool {
+//
+// keyOf gives the class key suffix for a failing item, or report=false when this failure is
+// the one already reported for the same history (then it is only counted).
+func vf15CheckAll(r *verifkit.Run, sh *Shard, items []vf15Item, desc map[string]any, keyOf func(vf15Item) (key string, report bool), phase, where string, skip map[oid.Address]bool) map[oid.Address]bool {
 	listed := 0
 	failed := map[oid.Address]bool{}
 	for _, it := range items {
@@ -451,8 +781,13 @@ func vf15CheckAll(r *verifkit.Run, sh *Shard, items []vf15Item, desc map[string]
 		}
 		var want object.Object
 		_ = want.Unmarshal(it.bin)
+		key, report := keyOf(it)
 		bad := func(call string, e error) {
 			failed[it.addr] = true
+			if !report {
+				r.Count("failures_already_reported_for_the_complete_run_of_the_history", 1)
+				return
+			}
 			r.Violation("listed-but-unreadable|"+key, fmt.Sprintf("%s: the metadata lists %s (%s) as available but %s cannot read it: %v (data in cache=%v, in blobstor=%v)", where, it.what, it.addr, call, e, inWC, inBlob), desc)
 		}
 		switch {
@@ -467,6 +802,10 @@ func vf15CheckAll(r *verifkit.Run, sh *Shard, items []vf15Item, desc map[string]
 		case !bytes.Equal(got.Marshal(), it.bin) || !bytes.Equal(gb, it.bin) || !bytes.Equal(lb, it.bin) ||
 			!bytes.Equal(spl, want.Payload()) || shdr == nil || !bytes.Equal(shdr.CutPayload().Marshal(), want.CutPayload().Marshal()):
 			failed[it.addr] = true
+			if !report {
+				r.Count("failures_already_reported_for_the_complete_run_of_the_history", 1)
+				continue
+			}
 			r.Violation("listed-but-different-bytes|"+key, fmt.Sprintf("%s: %s (%s) is listed as available but reads back with different bytes", where, it.what, it.addr), desc)
 		default:
 			r.Count("available_objects_read_back_identical"+phase, 1)
@@ -478,10 +817,16 @@ func vf15CheckAll(r *verifkit.Run, sh *Shard, items []vf15Item, desc map[string]
 	return failed
 }
 
-// vf15Recover reopens the crashed store and applies the oracle.
-func vf15Recover(r *verifkit.Run, jb *vf15Job, dir string, journal []string, crashed bool) {
+// vf15Recover reopens the stopped store and applies the oracle.  For the complete (dry) run
+// the stop is the clean one after the last operation; what is unreadable already then is
+// reported once, under a key that names the history shape, and returned.
+func vf15Recover(r *verifkit.Run, jb *vf15Job, dir string, journal []string, crashed bool) map[oid.Address]bool {
 	desc := jb.hs.describe()
-	desc["crash_point"] = fmt.Sprintf("%s#%d", jb.name, jb.k)
+	if jb.dry {
+		desc["crash_point"] = "none (stop after the last operation)"
+	} else {
+		desc["crash_point"] = fmt.Sprintf("%s#%d", jb.name, jb.k)
+	}
 	desc["crashed"] = crashed
 	inProgress := "none"
 	if len(journal) < len(jb.hs.ops) {
@@ -501,31 +846,52 @@ func vf15Recover(r *verifkit.Run, jb *vf15Job, dir string, journal []string, cra
 	var sh *Shard
 	var err error
 	if r.Guard(desc, func() { sh, err = vf15Open(dir, jb.hs.wc, jb.hs.thr, jb.hs.bc, ep) }) {
-		return
+		return nil
 	}
 	key := fmt.Sprintf("wc=%v|during=%s|after-step=%s", jb.hs.wc, inProgress, jb.step)
 	where := fmt.Sprintf("after a crash at %s#%d (during %s, after step %s)", jb.name, jb.k, inProgress, jb.step)
+	if jb.dry {
+		key = fmt.Sprintf("wc=%v|clean-stop", jb.hs.wc)
+		where = "after the complete history and a clean stop"
+	}
 	if err != nil {
 		r.Violation("reopen-failed|"+key, where+": shard does not reopen: "+err.Error(), desc)
-		return
+		return nil
 	}
 	defer func() { r.Guard(desc, func() { _ = sh.Close() }) }()
 	if m := sh.GetMode(); m.NoMetabase() || m.ReadOnly() {
 		r.Violation("reopen-degraded|"+key, fmt.Sprintf("%s: shard reopens in mode %s", where, m), desc)
-		return
+		return nil
 	}
 	var items []vf15Item
 	for i, o := range jb.hs.objs {
-		items = append(items, vf15Item{o.Address(), jb.hs.bins[i], fmt.Sprintf("object %d", i)})
+		items = append(items, vf15Item{o.Address(), jb.hs.bins[i], fmt.Sprintf("object %d", i), i, false})
 		ts := new(object.Object)
 		if ts.Unmarshal(jb.hs.tombs[i]) == nil {
-			items = append(items, vf15Item{ts.Address(), jb.hs.tombs[i], fmt.Sprintf("tombstone of %d", i)})
+			items = append(items, vf15Item{ts.Address(), jb.hs.tombs[i], fmt.Sprintf("tombstone of %d", i), i, true})
 		}
 	}
-	failed := vf15CheckAll(r, sh, items, desc, key, "", where, nil)
+	keyOf := func(suffix string) func(vf15Item) (string, bool) {
+		return func(it vf15Item) (string, bool) {
+			if jb.dry {
+				return key + "|" + jb.hs.cleanKey(it) + suffix, true
+			}
+			// what the complete run loses without any interruption is one finding of the
+			// history, not one per crash point passed after the copy was put
+			if jb.hs.cleanFailed[it.addr] && len(journal) > jb.hs.lastPut(it) {
+				return "", false
+			}
+			return key + suffix, true
+		}
+	}
+	ph := ""
+	if jb.dry {
+		ph = "_clean_stop"
+	}
+	failed := vf15CheckAll(r, sh, items, desc, keyOf(""), ph, where, nil)
 	// The statement speaks about the restarted node, not only its first instant: a GC
-	// pass and a flush of whatever the crash left in the cache must not change the answer.
-	if crashed {
+	// pass and a flush of whatever the stop left in the cache must not change the answer.
+	if crashed || jb.dry {
 		var ferr error
 		if r.Guard(desc, func() {
 			sh.removeGarbage()
@@ -533,13 +899,16 @@ func vf15Recover(r *verifkit.Run, jb *vf15Job, dir string, journal []string, cra
 				ferr = sh.FlushWriteCache(false)
 			}
 		}) {
-			return
+			return failed
 		}
 		if ferr != nil {
 			r.Count("post_recovery_flush_errors", 1)
 		}
-		vf15CheckAll(r, sh, items, desc, key+"|after-restart-gc-and-flush", "_after_restart_gc_flush", where+", then one GC pass and an explicit flush on the restarted shard", failed)
+		for a := range vf15CheckAll(r, sh, items, desc, keyOf("|after-restart-gc-and-flush"), ph+"_after_restart_gc_flush", where+", then one GC pass and an explicit flush on the restarted shard", failed) {
+			failed[a] = true
+		}
 	}
+	return failed
 }
 
 // vf15Prefixes: which instrumentation points are crash points.  Component step
@@ -560,6 +929,8 @@ func vf15NormStep(s string) string {
 	return s
 }
 
+var vf15T0 = time.Now()
+
 func TestVerif_C15(t *testing.T) {
 	if spec, ok := verifkit.ChildSpec(); ok {
 		vf15Child(spec)
@@ -567,9 +938,9 @@ func TestVerif_C15(t *testing.T) {
 	}
 	r := verifkit.Start(t, "C15", "fault_enumeration")
 	defer r.Finish()
-	r.SetRule("history = seeded script of <=10 shard operations over 3-5 objects (distinct sizes on both sides of the write-cache batch threshold, some expiring; write-cache on in 3 of 4 histories); case = (history, hook point, k-th hit) enumerated from a dry run; a case is non-trivial when the child really died at the point; distinct = distinct (history, point, k)")
+	r.SetRule("history = seeded script of <=10 shard operations over 3-5 objects (distinct sizes on both sides of the write-cache batch threshold, some expiring; write-cache on in 3 of 4 histories), either sequential (background flush only as an operation of its own) or overlapping (the background flusher is advanced to 2-3 of its step boundaries scheduled/taken/read/stored/done and held at each while 1-2 operations, mostly on one member of the batch in flight, execute); case = (history, hook point, k-th hit) enumerated from a dry run, plus (history, stop after the last operation); a crash case is non-trivial when the child really died at the point; distinct = distinct (history, point, k) / distinct sequence of (operation, flusher phase) of an overlapping history")
 	r.Assume("process-crash model: SIGKILL at the step boundary, everything handed to the kernel survives (no power loss)")
-	r.Assume("reopen without metabase resync; GC passes, epoch and flushes are driven explicitly by the script, background flush only inside the 'bgflush' operation (one flush worker)")
+	r.Assume("reopen without metabase resync; GC passes, epoch and flushes are driven explicitly by the script; the background flusher (one worker) moves only inside 'bgflush'/'bg' operations and stands still at its step boundaries otherwise, so operation/flusher interleavings are those the script names, at step-boundary granularity")
 	r.Assume("'metadata reports as available' = Shard.Exists(addr,false) returns true without error at the epoch of the last completed epoch operation")
 	base := os.Getenv("VERIF_SCRATCH")
 	if base == "" {
@@ -579,7 +950,17 @@ func TestVerif_C15(t *testing.T) {
 	par := r.Pick(12, 12)
 	var hists []*vf15Hist
 	for i := 0; i < nHist; i++ {
-		hists = append(hists, vf15GenHist(r, i))
+		hs := vf15GenHist(r, i)
+		hs.enumerate = true
+		hists = append(hists, hs)
+	}
+	// histories whose operations overlap a background flush round: all of them are judged
+	// after the complete run, the first ones also at every crash point from the first bg on
+	nOver, nOverEnum := r.Pick(48, 240), r.Pick(4, 30)
+	for i := 0; i < nOver; i++ {
+		hs := vf15GenOverlapHist(r, i)
+		hs.enumerate = i < nOverEnum
+		hists = append(hists, hs)
 	}
 	run := func(jobs []*vf15Job, f func(*vf15Job)) {
 		sem := make(chan struct{}, par)
@@ -616,21 +997,59 @@ func TestVerif_C15(t *testing.T) {
 			}
 			r.Count("dry_ops_"+jb.hs.ops[i].Kind+"_"+outcome, 1)
 		}
-		r.Sample(map[string]any{"history": jb.hs.describe(), "step_boundaries_passed": len(jb.order), "dry_run_journal": journal})
+		if jb.hs.idx < 3 || (jb.hs.overlap && jb.hs.idx < 1003) {
+			r.Sample(map[string]any{"history": jb.hs.describe(), "step_boundaries_passed": len(jb.order), "dry_run_journal": journal})
+		}
+		jb.hs.dryJournal = journal
+		if jb.hs.overlap {
+			for i, op := range jb.hs.ops {
+				switch {
+				case op.Kind == "bg" && op.Gate != "idle" && strings.Contains(journal[i], " ok held="):
+					r.Count("overlap_flusher_held_at_boundary", 1)
+					r.Seen("overlap_boundaries_held_at", op.Gate)
+				case op.Kind == "bg" && op.Gate != "idle":
+					r.Count("overlap_boundary_not_reached", 1)
+				case op.Kind != "bg" && i > jb.hs.firstBg:
+					r.Seen("overlap_operation_while_flusher", op.Kind+"@"+jb.hs.phase(i))
+				}
+			}
+			var shape []string
+			for i := jb.hs.firstBg; i < len(jb.hs.ops); i++ {
+				if op := jb.hs.ops[i]; op.Kind != "bg" {
+					shape = append(shape, op.String()+"@"+jb.hs.phase(i))
+				}
+			}
+			r.Distinct("overlap|" + strings.Join(shape, ","))
+		}
+		// the stop after the last operation is a stop point too
+		r.Eval(1)
+		r.Count("complete_runs_judged_after_clean_stop", 1)
+		jb.name, jb.k = "end", 0
+		jb.hs.cleanFailed = vf15Recover(r, jb, dir, journal, false)
+		if len(jb.hs.cleanFailed) > 0 {
+			r.Count("complete_runs_with_unreadable_listed_objects", 1)
+		}
 	})
+	if nOver > 0 && r.Counter("overlap_flusher_held_at_boundary") == 0 {
+		r.Inconclusive("no history got the background flusher held inside a flush round")
+	}
+	fmt.Printf("vf15-timing: dry phase done at %v\n", time.Since(vf15T0))
 	// 2. one crash child per (point, k)
 	var jobs []*vf15Job
 	for _, d := range dry {
 		cnt := map[string]int{}
 		step := ""
 		n := 0
+		opIdx := -1
 		for _, name := range d.order {
 			if name == vf15OpMark {
 				step = ""
+				opIdx++
 				continue
 			}
 			cnt[name]++
-			if vf15IsCrashPoint(r, name) {
+			// overlap histories: the puts before the first bg are the sequential histories' business
+			if vf15IsCrashPoint(r, name) && d.hs.enumerate && !(d.hs.overlap && opIdx < d.hs.firstBg) {
 				jobs = append(jobs, &vf15Job{hs: d.hs, name: name, k: cnt[name], step: vf15NormStep(step)})
 				r.Seen("crash_points_enumerated", name)
 				n++
@@ -668,6 +1087,7 @@ func TestVerif_C15(t *testing.T) {
 			r.Inconclusive(fmt.Sprintf("history %d crash@%s#%d: child ended unexpectedly (exit %d, signal %v, timeout %v): %s", jb.hs.idx, jb.name, jb.k, res.ExitCode, res.Signal, res.TimedOut, strings.TrimSpace(res.Output)))
 		}
 	})
+	fmt.Printf("vf15-timing: crash phase done at %v\n", time.Since(vf15T0))
 	if e, re := r.Counter("crash_cases_enumerated"), r.Counter("crash_cases_reached"); re*10 < e*9 {
 		r.Inconclusive(fmt.Sprintf("only %d of %d enumerated crash points were reached", re, e))
 	}
